@@ -9,6 +9,9 @@ LEVEL = "model_checking"
 
 def run(res, tier):
     router.run(res, "C02", tier)
+    # fallback = hand-off to a wrapped listener: exactly once, only fall-through connections, stream intact, not closed before
+    import check_c13
+    check_c13.add_to(res, tier, ("L1", "L2", "L3", "L4"), "C02")
     res.coverage["checker_cmd"] = "tlc L4Router_MC.tla (PropsHold on RouterImpl) + vdrive router-replay/router-random + tlc L4RouterTrace.tla"
 
 
